@@ -534,8 +534,35 @@ func c13Sequences() []string {
 		out = append(out, "n := str2num \"bad\"\nerr = false\nm := str2num "+a+"\nprint n m err errmsg\nerrmsg = \"x\"\nb := str2bool \"0\"\nprint b err errmsg\n")
 	}
 	// split / join laws
-	strs := []string{`""`, `"a"`, `"a,b"`, `",a,,b,"`, `"aéb"`, `"🙂🙂"`, `"abab"`}
-	seps := []string{`""`, `","`, `"a"`, `"ab"`, `"é"`, `"🙂"`}
+	strs := []string{`""`, `"a"`, `"a,b"`, `",a,,b,"`, `"aéb"`, `"🙂🙂"`, `"abab"`, `"aaa"`, `"aaaa"`, `"ababa"`, `"abababa"`, `"aéaéa"`}
+	seps := []string{`""`, `","`, `"a"`, `"ab"`, `"é"`, `"🙂"`, `"aa"`, `"aba"`, `"aéa"`}
+	// split and replace are computed by the model itself (strSplit / strReplace): every string over {a, b} up to
+	// length 5 against every separator up to length 3 — leftmost, non-overlapping matching is where they can differ
+	var ab func(n int) []string
+	ab = func(n int) []string {
+		if n == 0 {
+			return []string{""}
+		}
+		var r []string
+		for _, t := range ab(n - 1) {
+			r = append(r, t+"a", t+"b")
+		}
+		return r
+	}
+	var all, short []string
+	for n := 0; n <= 5; n++ {
+		all = append(all, ab(n)...)
+		if n <= 3 {
+			short = append(short, ab(n)...)
+		}
+	}
+	for _, sep := range short {
+		var b strings.Builder
+		for _, s := range all {
+			fmt.Fprintf(&b, "print (split %q %q) (replace %q %q \"-\") (replace %q %q \"ab\")\n", s, sep, s, sep, s, sep)
+		}
+		out = append(out, b.String())
+	}
 	for _, s := range strs {
 		for _, sep := range seps {
 			out = append(out, "p := split "+s+" "+sep+"\nprint p (len p)\nj := join p "+sep+"\nprint j (j == "+s+")\n")
